@@ -33,7 +33,7 @@ var _ = pkix.Name{}
 
 func init() {
 	zv.Register(&zv.Prop{ID: "C03", Topic: "c03", Gen: gen, Exec: exec,
-		Rule: "dsa: zcrypto/dsa.Sign and Verify for every (parameter set with N = 160/224/256 and L = 512..3072, plus N = 16/192/384 and an N = 163 set Sign must refuse; digest = SHA-1/224/256/384/512 of a message and raw lengths 0, 1, n-1, n, n+1, 2n, 2n+1, 100 around the byte length n of q, top bit set, all zero, all ones) on a fixed random stream (incl. k = 0 / k >= q redraws and a reader running dry): same (r,s) as crypto/dsa and as the Lean model, own and standard verifier accept it and reject every changed digest; signatures made by crypto/dsa and their mutations (digest changed / truncated to n bytes / zero-extended, r+q, q-s, s+q, swapped, zero, negative) through zcrypto's Verify = crypto/dsa's verdict = model; csfkg lines: every genuine signature of the csfk stream (made by the library's own signers: zcrypto/rsa, zcrypto/dsa over all N = 160/224/256 sets with DSAWithSHA1 and DSAWithSHA256, crypto/ecdsa, ed25519) must be ACCEPTED by CheckSignatureFromKey; api: every (creation API in {CreateCertificate, CreateCertificateRequest, CreateCRL, CreateRevocationList, ocsp.CreateResponse}, SignatureAlgorithm 0..17, key in {RSA, ECDSA P-256/P-384, Ed25519}) create -> parse -> own verification API, plus verification after mutating the signed bytes / signature; csfk: x509.CheckSignatureFromKey on genuine signatures (RSA 1280/1536/2048 and moduli of 1025/1281/1031/2049/1545/1028 bits, i.e. bit length = 1..7 mod 8, PKCS#1 v1.5 and PSS per hash, DSA L1024N160, ECDSA P-256/P-384 as *ecdsa.PublicKey and as *AugmentedECDSA, Ed25519) and on mutations of message, signature (bit flips, truncation, extension, RSA forgeries made with the private key: roots of EM + 2^(modBits-1) (must-be-zero top bit / leading octet of the PSS representative), of EM + j*256^(k-1) and of structurally damaged EM, s + j*n, n - s, zero-extended; DER re-encodings: trailing bytes, third INTEGER, non-minimal lengths/integers, negative/zero r,s), key and claimed algorithm (all 18 values); a case is one distinct line; T3 = strict reference verifiers (own strict DER reader + crypto/ecdsa.VerifyASN1 / crypto/dsa.Verify / crypto/rsa (directly, wherever its key limits allow) / ed25519.Verify)"})
+		Rule: "sparams: both signingParamsForPublicKey (x509, ocsp; through verif hooks) for every (key label in {RSA, ECDSA P-224/P-256/P-384/P-521, ECDSA on an unnamed curve, Ed25519, DSA, nil}, requested algorithm 0..19, 255, one large value): hash, OID, parameters, the algorithm GetSignatureAlgorithmFromAI / getSignatureAlgorithmFromOID reads back and the options a recording crypto.Signer receives from the REAL CreateCertificate / CreateCertificateRequest / CreateRevocationList / ocsp.CreateResponse = the Lean model; T3: the APIs refuse exactly what the function refuses, their parsers read back the same algorithm, the signer is asked for the standard scheme of that algorithm, the object verifies; sigai / sigoid: GetSignatureAlgorithmFromAI on every table OID and near misses x {absent, NULL, rsaPSSParameters(SHA-256/384/512)} and ocsp getSignatureAlgorithmFromOID = model; csfk with a key of a Go type outside the type switch (crypto/rsa key, ecdsa key by value, nil) under all 18 algorithms; dsa: zcrypto/dsa.Sign and Verify for every (parameter set with N = 160/224/256 and L = 512..3072, plus N = 16/192/384 and an N = 163 set Sign must refuse; digest = SHA-1/224/256/384/512 of a message and raw lengths 0, 1, n-1, n, n+1, 2n, 2n+1, 100 around the byte length n of q, top bit set, all zero, all ones) on a fixed random stream (incl. k = 0 / k >= q redraws and a reader running dry): same (r,s) as crypto/dsa and as the Lean model, own and standard verifier accept it and reject every changed digest; signatures made by crypto/dsa and their mutations (digest changed / truncated to n bytes / zero-extended, r+q, q-s, s+q, swapped, zero, negative) through zcrypto's Verify = crypto/dsa's verdict = model; csfkg lines: every genuine signature of the csfk stream (made by the library's own signers: zcrypto/rsa, zcrypto/dsa over all N = 160/224/256 sets with DSAWithSHA1 and DSAWithSHA256, crypto/ecdsa, ed25519) must be ACCEPTED by CheckSignatureFromKey; api: every (creation API in {CreateCertificate, CreateCertificateRequest, CreateCRL, CreateRevocationList, ocsp.CreateResponse}, SignatureAlgorithm 0..17, key in {RSA, ECDSA P-256/P-384, Ed25519}) create -> parse -> own verification API, plus verification after mutating the signed bytes / signature; csfk: x509.CheckSignatureFromKey on genuine signatures (RSA 1280/1536/2048 and moduli of 1025/1281/1031/2049/1545/1028 bits, i.e. bit length = 1..7 mod 8, PKCS#1 v1.5 and PSS per hash, DSA L1024N160, ECDSA P-256/P-384 as *ecdsa.PublicKey and as *AugmentedECDSA, Ed25519) and on mutations of message, signature (bit flips, truncation, extension, RSA forgeries made with the private key: roots of EM + 2^(modBits-1) (must-be-zero top bit / leading octet of the PSS representative), of EM + j*256^(k-1) and of structurally damaged EM, s + j*n, n - s, zero-extended; DER re-encodings: trailing bytes, third INTEGER, non-minimal lengths/integers, negative/zero r,s), key and claimed algorithm (all 18 values); a case is one distinct line; T3 = strict reference verifiers (own strict DER reader + crypto/ecdsa.VerifyASN1 / crypto/dsa.Verify / crypto/rsa (directly, wherever its key limits allow) / ed25519.Verify)"})
 }
 
 const (
@@ -194,9 +194,23 @@ func parseKey(f []string) (key interface{}, std interface{}) {
 	case "ed":
 		k := ed25519.PublicKey(zv.UnHex(f[1]))
 		return k, k
+	case "other": // a Go type outside the type switch: crypto/rsa's key (not zcrypto/rsa's), a key by value, nil
+		switch f[1] {
+		case "stdrsa":
+			k := &crsa.PublicKey{N: big.NewInt(3233), E: 17}
+			return k, otherKey{}
+		case "ecdsaval":
+			k := ecdsa.PublicKey{Curve: elliptic.P256(), X: elliptic.P256().Params().Gx, Y: elliptic.P256().Params().Gy}
+			return k, otherKey{}
+		case "nil":
+			return nil, otherKey{}
+		}
 	}
 	panic("bad key type " + f[0])
 }
+
+// otherKey marks (for the T3 reference) a key no verifier exists for: every signature must be rejected
+type otherKey struct{}
 
 func atoi(s string) int {
 	n, err := strconv.Atoi(s)
@@ -231,6 +245,12 @@ func exec(line string) zv.Out {
 		return execDSASign(a, tags)
 	case "dsaver":
 		return execDSAVer(a, tags)
+	case "sparams":
+		return execSParams(a, tags)
+	case "sigai":
+		return execSigAI(a, tags)
+	case "sigoid":
+		return execSigOID(a, tags)
 	case "csfk", "csfkg": // kt k1 k2 k3 k4 algo signed sig oracle ; csfkg: the signature was made by the library's own signer over exactly these bytes with the matching key
 		key, std := parseKey(a[:5])
 		algo := atoi(a[5])
@@ -298,6 +318,9 @@ func exec(line string) zv.Out {
 					tags = append(tags, "family-mismatch")
 				}
 			}
+		case otherKey:
+			ref = false
+			tags = append(tags, "other="+a[1])
 		case ed25519.PublicKey:
 			if known {
 				ref = ed25519.Verify(k, digestFor(algo, msg), sig)
